@@ -196,7 +196,9 @@ def run(runobj, spec, timeout=10.0, only=None, verbose=False):
             pass
         mon[c.name] = {"evaluated": n_eval, "requires_false": n_skip}
         if first_bad is not None and id(c) not in undecided_by_contract and not any(f["obligation"].startswith(c.name + "/") for f in res["failed"]):
-            payload = {"obligation": f"{c.name}/native", "what": f"contract violated natively although its obligations were discharged: {first_bad['detail'][:200]}",
+            left = bool(getattr(rep, "oos_paths", None))
+            payload = {"obligation": f"{c.name}/native", "what": ("contract violated natively (a path of the function left the verifier's subset, so its obligations were undecided): "
+                                                                    if left else "contract violated natively although its obligations were discharged: ") + f"{first_bad['detail'][:200]}",
                        "contract": c.name, "function": c.key, "witness": first_bad}
             runobj.classify(f"{c.name}/native", payload)
     res["monitor_evaluations"] = mon
